@@ -249,6 +249,47 @@ def processChunk (inflate : Inflate) (m : Profile) (fmt : PixelFormat) (frame : 
       pure { pi with tilesets := assocInsert t.id.toNat t pi.tilesets }
   | .celExtra | .mask | .path => pure pi
 
+/-- `processChunk` with the growing arrays (`layers`, `slices`) used linearly: the compiled
+    `processChunk` pushes onto an array that the old state still references, which copies the
+    array for every layer chunk (quadratic for sprites with tens of thousands of layers).
+    Installed for compiled code by the `csimp` equation below; no theorem mentions it. -/
+def processChunkFast (inflate : Inflate) (m : Profile) (fmt : PixelFormat) (frame : Nat)
+    (pi : ParseInfo) (c : Chunk) : Res ParseInfo :=
+  match c.ty with
+  | .layer =>
+      match runChunk parseLayerChunk c.data with
+      | .ok l =>
+          let n := pi.layers.size
+          let ls := pi.layers
+          let pi := { pi with layers := #[] }
+          .ok { pi with layers := ls.push l, ctx := some (.layer n) }
+      | .err e => .err e
+      | .panic q => .panic q
+  | .slice =>
+      match runChunk parseSliceChunk c.data with
+      | .ok s =>
+          let n := pi.slices.size
+          let ss := pi.slices
+          let pi := { pi with slices := #[] }
+          .ok { pi with slices := ss.push s, ctx := some (.slice n) }
+      | .err e => .err e
+      | .panic q => .panic q
+  | _ => processChunk inflate m fmt frame pi c
+
+@[csimp] theorem processChunk_eq_fast : @processChunk = @processChunkFast := by
+  funext inflate m fmt frame pi c
+  unfold processChunkFast
+  split
+  · rename_i h
+    unfold processChunk
+    simp only [h]
+    cases runChunk parseLayerChunk c.data <;> rfl
+  · rename_i h
+    unfold processChunk
+    simp only [h]
+    cases runChunk parseSliceChunk c.data <;> rfl
+  · rfl
+
 def processChunks (inflate : Inflate) (m : Profile) (fmt : PixelFormat) (frame : Nat) :
     ParseInfo → List Chunk → Res ParseInfo
   | pi, [] => .ok pi
